@@ -307,8 +307,9 @@ class _fill_n_u:
         n, N = shape_of(bins)[0], shape_of(old.values)[0]
         W = getattr(old, "weights", None)
         f0, f1 = attr(old.self, "_frequencies"), attr(a.self, "_frequencies")
-        if dtype_of(f0).kind != dtype_of(f1).kind or (W is not None and dtype_of(W).kind != dtype_of(f0).kind):
-            return True
+        wkind = "i" if W is None else dtype_of(W).kind
+        if not (dtype_of(f0).kind == dtype_of(f1).kind == wkind):
+            return True      # stated where contents and weights are of one kind (the lemmas are per kind); mixed kinds: bounded contracts
         m0, m1 = elems(attr(old.self, "_missed")), elems(attr(a.self, "_missed"))
         cons = forall(0, n - 1, lambda k: bins[k, 1] == bins[k + 1, 0])
         batch = N if W is None else total_t(W)
